@@ -857,14 +857,16 @@ def monitor_msg(c, impl):
             bad.append("N3: unexpected outcome: %s -> %s" % (op[:90], l[:80]))
     if bad:
         return bad
-    if c.get("must_err"):
-        for op, l in zip(c["ops"], impl):
+    if c.get("must_err") or c.get("must_err_ops"):
+        for i, (op, l) in enumerate(zip(c["ops"], impl)):
+            if c.get("must_err_ops") is not None and i not in c["must_err_ops"]:
+                continue
             if not l.startswith("err "):
                 bad.append("N4: malformed input (%s) is not reported as an error: %s -> %s" % (c.get("tag", ""), op[:90], l[:80]))
     if "expect" in c and not c.get("carve"):
         tag = {"valid": "N2", "name": "N1", "query": "N1q", "encode": "N1", "boundary": "N2", "gadget-rdata": "N4", "chain": "N4", "corpus": "N2"}.get(c["cat"], "N2")
         for op, l, e in zip(c["ops"], impl, c["expect"]):
-            if l != e:
+            if e is not None and l != e:
                 bad.append("%s: decoded result differs from what the reference encoder encoded: %s -> got `%s` want `%s`" % (tag, op[:70], diff_snip(l, e), diff_snip(e, l)))
     return bad
 
@@ -906,6 +908,7 @@ def run(ctx: Ctx):
         cases += gen_cache_cases(rng.fork("cache"), 250 * scale)
         res = ctx.lockstep("dns", hb, cases, timeout=1500)
         n_mismatch = 0
+        skipped_after_crash_cap = 0
         ptr_total = fwd_total = 0
         max_chain = 0
         mut_kinds = {}
@@ -924,6 +927,9 @@ def run(ctx: Ctx):
             ctx.count_case("\n".join(c["ops"]), nontrivial=any(not l.startswith("err tooShort") for l in impl))
             if c["cat"] in ("valid", "cache", "mutated") and len(ctx.cov["samples"]) < 6 and ctx.rng.chance(1, 200):
                 ctx.sample({"cat": c["cat"], "ops": [o[:200] for o in c["ops"][:5]], "impl": [l[:200] for l in impl[:5]]})
+            if any(l == "crash:too-many-crashes" for l in impl):
+                skipped_after_crash_cap += 1          # the harness was not run on this case at all (vlib's crash cap): nothing to judge
+                continue
             fails = monitor_cache(c, impl) if c["cat"] == "cache" else monitor_msg(c, impl)
             mism = [(i, a, b) for i, (a, b) in enumerate(zip(impl, model)) if a != b]
             if c.get("carve"):
@@ -944,6 +950,8 @@ def run(ctx: Ctx):
                                   {"broken": {"correspondence": "dns lockstep (harness/c19_dns.cpp vs Model/Dns.lean, Model/DnsCache.lean)",
                                               "detail": "first differing op index %d, category %s" % (i, c["cat"])},
                                    "ops": c["ops"], "observed": impl, "expected_by_model": model}, found_input=False)
+        if skipped_after_crash_cap:
+            ctx.notes.append("%d cases not judged: the harness crashed more than 50 times and ctx.lockstep stopped restarting it" % skipped_after_crash_cap)
         ctx.extra["generator"] = {"pointers_emitted": ptr_total, "forward_pointers": fwd_total, "longest_pointer_chain_in_valid_messages": max_chain,
                                   "mutation_kinds": mut_kinds, "impl_outcomes": dict(sorted(outcome.items(), key=lambda kv: -kv[1])[:30])}
         # recorded finding F13A: replay its witness against the real code
